@@ -181,10 +181,28 @@ NaiveSecondParam(p) == p.t2
 NaiveFirstParam(p) == IF p.t1 = "B" THEN p.t2 ELSE p.t1
 CaptureMatters == \E p \in SelfInstPrograms : <<NaiveFirstParam(p), NaiveSecondParam(p)>> # InstParams(p)
 
+(* ---- higher rank: a polymorphic function as an ARGUMENT -------------------------------------------------------------- *)
+(*   let use2 = { fn (f : Thk (forall (A : VType) . A -> Ret A)) =>                                                        *)
+(*                  do a <- ! f Int64 3; do b <- ! f Bool +T(); match b | +T() => ! exit a | +F() => ! exit 0 end } that    *)
+(*   ! use2 ARG                                                                                                             *)
+(* The parameter's scheme and ARG's are declared with different bound names; they are compared in nameless form:           *)
+(* <<number of quantifiers, parameter types, result>> with bound variables as indices and everything else by name.          *)
+Rank2Want == <<1, << <<"b", 1>> >>, <<"b", 1>>>>                                   \* forall . 1 -> Ret 1
+Rank2Args == [
+  id     |-> [scheme |-> <<1, << <<"b", 1>> >>, <<"b", 1>>>>,             impl |-> "declared"],   \* forall (X) . X -> Ret X
+  inline |-> [scheme |-> <<1, << <<"b", 1>> >>, <<"b", 1>>>>,             impl |-> "ok"],         \* { fn (Z : VType) (z : Z) => ret z }
+  mono   |-> [scheme |-> <<0, << <<"n", "Int">> >>, <<"n", "Int">>>>,    impl |-> "ok"],         \* { fn (x : Int64) => ret x }
+  const3 |-> [scheme |-> <<1, << <<"b", 1>> >>, <<"b", 1>>>>,             impl |-> "bad"],        \* { fn (Z : VType) (z : Z) => ret 3 }: 3 is no Z
+  dupf   |-> [scheme |-> <<1, << <<"b", 1>> >>, <<"n", "Prod11">>>>,      impl |-> "declared"],   \* forall (A) . A -> Ret (A * A)
+  kint   |-> [scheme |-> <<1, << <<"n", "Int">>, <<"b", 1>> >>, <<"n", "Int">>>>, impl |-> "declared"],  \* ! k Int64 : forall (B) . Int64 -> B -> Ret Int64
+  idv    |-> [scheme |-> <<1, << <<"b", 1>> >>, <<"b", 1>>>>,             impl |-> "declared"]]   \* id2, declared with forall (A : VType), the SAME bound name
+Rank2Programs == {[fam |-> "rank2", arg |-> a] : a \in DOMAIN Rank2Args}
+Rank2Verdict(p) == IF Rank2Args[p.arg].scheme = Rank2Want /\ Rank2Args[p.arg].impl # "bad" THEN "accept" ELSE "mismatch"
+
 VARIABLES stage, prog
 Init == stage = "pick" /\ prog \in {[fam |-> "seed", g |-> g] : g \in FnNames \cup {"alpha"}}
 Next == stage = "pick" /\ stage' = "done" /\
-        IF prog.g = "alpha" THEN prog' \in AlphaPrograms \cup QuantPrograms \cup SelfInstPrograms ELSE prog' \in Programs(prog.g)
+        IF prog.g = "alpha" THEN prog' \in AlphaPrograms \cup QuantPrograms \cup SelfInstPrograms \cup Rank2Programs ELSE prog' \in Programs(prog.g)
 Spec == Init /\ [][Next]_<<stage, prog>>
 
 (* ---- design statements -------------------------------------------------------------------------------------- *)
@@ -211,6 +229,7 @@ Inv == stage = "pick" /\ prog.g = "id" => (CaptureMatters /\ SortsSwitch /\ Stra
 Report == stage = "done" =>
   IF prog.fam = "alpha" THEN PrintT(<<"REPLAY", ToJson(prog @@ [verdict |-> AlphaVerdict(prog), exit |-> 3])>>)
   ELSE IF prog.fam = "quant" THEN PrintT(<<"REPLAY", ToJson(prog @@ [verdict |-> QuantVerdict(prog), exit |-> 3])>>)
+  ELSE IF prog.fam = "rank2" THEN PrintT(<<"REPLAY", ToJson(prog @@ [verdict |-> Rank2Verdict(prog), exit |-> 3])>>)
   ELSE IF prog.fam = "selfinst" THEN PrintT(<<"REPLAY", ToJson(prog @@ [verdict |-> SelfInstVerdict(prog), exit |-> 3])>>)
   ELSE PrintT(<<"REPLAY", ToJson(prog @@ [verdict |-> Verdict(prog), exit |-> IF Verdict(prog) = "accept" THEN Exit(prog) ELSE 0])>>)
 ================================================================================
